@@ -14,6 +14,10 @@ net/textproto, encoding/base64, bufio; `time.ParseDuration`, `net.SplitHostPort`
 -/
 import Vegeta.Model.ParserGuards
 import Vegeta.Props.C19
+import Vegeta.Proofs.TargeterLaws
+import Vegeta.Model.CodecResult
+import Vegeta.Model.DecoderFor
+import Vegeta.Model.RoundRobin
 import Vegeta.Extracted.Facts
 namespace Vegeta.Props.C16
 open Vegeta.Go Vegeta.Model.ParserGuards Vegeta.Model.Flags
@@ -336,5 +340,1003 @@ theorem cmdline_never_panics (args : List FlagArg) : ∀ o : Opts, parseArgs o a
 theorem resolver_rotation_never_panics (addrs : List Bytes) (hne : addrs ≠ []) (n : Nat) : rotation addrs n 0 ≠ .panic := by
   obtain ⟨l, h, _⟩ := C19.resolver_rotation addrs hne n 0
   rw [h]; simp
+
+section others
+open Vegeta.Model
+
+/-! ### the target-file parsers over the models of C14 -/
+
+/-- one call of the HTTP targeter model never yields the panic outcome -/
+theorem aux_http_call_np (cfg : HTTPTargets.Cfg) (st : HTTPTargets.St) : (HTTPTargets.call cfg st).1 ≠ .panic := by
+  obtain ⟨ps', c1, _⟩ := Vegeta.Proofs.HTTPTargetsL.call_refines cfg st
+  rw [c1]
+  rcases Vegeta.Proofs.TargeterLaws.callL_cases cfg (Vegeta.Proofs.HTTPTargetsL.eff st.ps) st.heap with ⟨h, _⟩ | ⟨_, h, _⟩
+  · rw [h]; simp
+  · exact h
+
+/-- **The HTTP targeter never panics** (model `Vegeta.Model.HTTPTargets` of builder C14: peeking
+scanner, skip rules, request line, peek rule, header loop, `@file` bodies, default merge) — for
+arbitrary input bytes `src`, arbitrary defaults (`cfg.body`, `cfg.hdr`), arbitrary behaviour of
+the two library/OS parameters `cfg.validURI` (`url.ParseRequestURI`) and `cfg.fs`
+(`os.ReadFile`), and any number `n` of calls: every one of the `n` results is a target or an
+error. -/
+theorem http_targeter_never_panics (cfg : HTTPTargets.Cfg) (src : Bytes) (heap : HTTPTargets.Heap) (n : Nat) :
+    ∀ r ∈ (HTTPTargets.calls cfg n { ps := HTTPTargets.PS.init src, heap := heap }).1, r ≠ .panic := by
+  generalize ({ ps := HTTPTargets.PS.init src, heap := heap } : HTTPTargets.St) = st
+  induction n generalizing st with
+  | zero => intro r hr; simp [HTTPTargets.calls] at hr
+  | succ n ih =>
+    intro r hr
+    simp only [HTTPTargets.calls, List.mem_cons] at hr
+    rcases hr with rfl | hr
+    · exact aux_http_call_np cfg st
+    · exact ih _ r hr
+
+/-- **Every call of the HTTP targeter returns `ErrNoTargets` or consumes at least one line**
+(`eff` = the lines the peeking scanner will still deliver): it never loops or returns without
+consuming input, so `ReadAllTargets` terminates. After `ErrNoTargets` nothing is left. -/
+theorem http_targeter_consumes_or_stops (cfg : HTTPTargets.Cfg) (st : HTTPTargets.St) :
+    ((HTTPTargets.call cfg st).1 = .error HTTPTargets.eNoTargets ∧
+      Vegeta.Proofs.HTTPTargetsL.eff (HTTPTargets.call cfg st).2.ps = []) ∨
+    ((HTTPTargets.call cfg st).1 ≠ .error HTTPTargets.eNoTargets ∧
+      (Vegeta.Proofs.HTTPTargetsL.eff (HTTPTargets.call cfg st).2.ps).length <
+        (Vegeta.Proofs.HTTPTargetsL.eff st.ps).length) := by
+  obtain ⟨ps', c1, c2⟩ := Vegeta.Proofs.HTTPTargetsL.call_refines cfg st
+  rw [c1]
+  simp only [c2]
+  rcases Vegeta.Proofs.TargeterLaws.callL_cases cfg (Vegeta.Proofs.HTTPTargetsL.eff st.ps) st.heap with ⟨h, _⟩ | ⟨h1, _, h3⟩
+  · left; rw [h]; exact ⟨rfl, rfl⟩
+  · right; exact ⟨h1, h3⟩
+
+/-- **The JSON targeter never panics** (model `Vegeta.Model.JSONTargets`): arbitrary input bytes,
+arbitrary defaults, arbitrary behaviour of the line decoder `cfg.dec` (the easyjson lexer, a
+parameter), any number of calls. -/
+theorem json_targeter_never_panics (cfg : JSONTargets.Cfg) (src : Bytes) (n : Nat) :
+    ∀ r ∈ (JSONTargets.calls cfg n src).1, r ≠ .panic := by
+  have hcall : ∀ s, (JSONTargets.call cfg s).1 ≠ .panic := by
+    intro s
+    unfold JSONTargets.call
+    split
+    · simp
+    · simp only [JSONTargets.finish]
+      split
+      · simp
+      · split
+        · simp
+        · split <;> simp
+  induction n generalizing src with
+  | zero => intro r hr; simp [JSONTargets.calls] at hr
+  | succ n ih =>
+    intro r hr
+    simp only [JSONTargets.calls, List.mem_cons] at hr
+    rcases hr with rfl | hr
+    · exact hcall src
+    · exact ih _ r hr
+
+/-- **Every call of the JSON targeter returns `ErrNoTargets` (with nothing left to read) or
+consumes at least one byte** — the empty-line loop cannot spin. -/
+theorem json_targeter_consumes_or_stops (cfg : JSONTargets.Cfg) (src : Bytes) :
+    ((JSONTargets.call cfg src).1 = .error JSONTargets.eNoTargets ∧ (JSONTargets.call cfg src).2 = []) ∨
+    (JSONTargets.call cfg src).2.length < src.length := by
+  unfold JSONTargets.call
+  cases hp : JSONTargets.popLine (src.length + 1) src with
+  | mk o rest =>
+    cases o with
+    | none =>
+      left
+      have := Vegeta.Proofs.TargeterLaws.popLine_none (src.length + 1) src (by omega) (by rw [hp])
+      rw [hp] at this
+      exact ⟨rfl, this⟩
+    | some d =>
+      right
+      exact Vegeta.Proofs.TargeterLaws.popLine_length _ _ _ _ hp
+
+/-! ### the result decoders over the models of C07 (`Vegeta.Model.Codec`) -/
+
+theorem aux_pure_np {α} (a : α) : (pure a : Outcome α) ≠ .panic := by
+  show Outcome.ok a ≠ _; simp
+
+theorem aux_c_parseUintLoop_np (maxVal : Nat) (s : Bytes) : ∀ n, Codec.parseUintLoop maxVal s n ≠ .panic := by
+  induction s with
+  | nil => intro n; simp [Codec.parseUintLoop]
+  | cons c r ih =>
+    intro n
+    unfold Codec.parseUintLoop
+    repeat' (first | exact ih _ | split | simp)
+
+theorem aux_c_parseUint_np (bits : Nat) (s : Bytes) : Codec.parseUint bits s ≠ .panic := by
+  unfold Codec.parseUint
+  split
+  · simp
+  · exact aux_c_parseUintLoop_np _ _ _
+
+theorem aux_c_parseInt_np (bits : Nat) (s : Bytes) : Codec.parseInt bits s ≠ .panic := by
+  unfold Codec.parseInt
+  split
+  · simp
+  · simp only []
+    split
+    · repeat' (first | split | simp)
+    · simp
+    · rename_i h; exact absurd h (aux_c_parseUint_np _ _)
+
+theorem aux_c_b64DecodeQ_np (s : Bytes) : Codec.b64DecodeQ s ≠ .panic := by
+  fun_induction Codec.b64DecodeQ s <;> simp_all
+
+theorem aux_c_b64Decode_np (s : Bytes) : Codec.b64Decode s ≠ .panic := aux_c_b64DecodeQ_np _
+
+theorem aux_c_readHeaderLoop_np (fuel : Nat) : ∀ (s : Bytes) (m : Codec.Header), Codec.readHeaderLoop fuel s m ≠ .panic := by
+  induction fuel with
+  | zero => intro s m; simp [Codec.readHeaderLoop]
+  | succ f ih =>
+    intro s m
+    unfold Codec.readHeaderLoop
+    repeat' (first | exact ih _ _ | split | simp)
+
+theorem aux_c_readMIMEHeader_np (s : Bytes) : Codec.readMIMEHeader s ≠ .panic := by
+  unfold Codec.readMIMEHeader
+  repeat' (first | exact aux_c_readHeaderLoop_np _ _ _ | split | simp)
+
+/-- **The CSV record → Result conversion of C07's model never panics**, for a record of ANY
+shape (the model reads missing columns as empty, `getField`; the index side — every `rec[i]` is
+below `FieldsPerRecord` = 12 — is `csv_record_never_panics` / `facts_csv` above). Covers the
+vegeta-owned calls in the decoder closure: `strconv.ParseInt/ParseUint`, base64
+`DecodeString`, `textproto.ReadMIMEHeader` as modelled by C07 from their sources. -/
+theorem csv_record_conversion_never_panics (fields : List Bytes) : Codec.resultOfRecord fields ≠ .panic := by
+  unfold Codec.resultOfRecord
+  refine aux_bind_np' _ _ (aux_c_parseInt_np _ _) fun _ => ?_
+  refine aux_bind_np' _ _ (aux_c_parseUint_np _ _) fun _ => ?_
+  refine aux_bind_np' _ _ (aux_c_parseInt_np _ _) fun _ => ?_
+  refine aux_bind_np' _ _ (aux_c_parseUint_np _ _) fun _ => ?_
+  refine aux_bind_np' _ _ (aux_c_parseUint_np _ _) fun _ => ?_
+  refine aux_bind_np' _ _ (aux_c_b64Decode_np _) fun _ => ?_
+  refine aux_bind_np' _ _ (aux_c_parseUint_np _ _) fun _ => ?_
+  refine aux_bind_np' _ _ ?_ fun _ => aux_pure_np _
+  split
+  · exact aux_pure_np _
+  · refine aux_bind_np' _ _ (aux_c_b64Decode_np _) fun _ => ?_
+    exact aux_bind_np' _ _ (aux_c_readMIMEHeader_np _) fun _ => aux_pure_np _
+
+/-! #### the JSON record lexer and decoder -/
+
+theorem aux_c_fetchToken_np (s : Bytes) (ws : Nat) (fe : Bool) : Codec.fetchToken s ws fe ≠ .panic := by
+  fun_induction Codec.fetchToken s ws fe <;> simp_all
+
+theorem aux_c_next_np (l : Codec.Lex) : l.next ≠ .panic := aux_c_fetchToken_np _ _ _
+
+theorem aux_c_lexString_np (l : Codec.Lex) : Codec.lexString l ≠ .panic := by
+  unfold Codec.lexString
+  have := aux_c_next_np l
+  repeat' (first | contradiction | split | simp)
+
+theorem aux_c_lexNumber_np (l : Codec.Lex) : Codec.lexNumber l ≠ .panic := by
+  unfold Codec.lexNumber
+  have := aux_c_next_np l
+  repeat' (first | contradiction | split | simp)
+
+theorem aux_c_lexDelim_np (c : Nat) (l : Codec.Lex) : Codec.lexDelim c l ≠ .panic := by
+  unfold Codec.lexDelim
+  have := aux_c_next_np l
+  repeat' (first | contradiction | split | simp)
+
+theorem aux_c_lexRawString_np (l : Codec.Lex) : Codec.lexRawString l ≠ .panic := by
+  unfold Codec.lexRawString
+  have := aux_c_next_np l
+  repeat' (first | contradiction | split | simp)
+
+theorem aux_c_lexSkip_np (l : Codec.Lex) : Codec.lexSkip l ≠ .panic := by
+  unfold Codec.lexSkip
+  have := aux_c_next_np l
+  repeat' (first | contradiction | split | simp)
+
+theorem aux_c_timeUnmarshal_np (d : Bytes) : Codec.timeUnmarshalJSON d ≠ .panic := by
+  unfold Codec.timeUnmarshalJSON
+  repeat' (first | split | simp)
+
+theorem aux_ite_np {α} (c : Prop) [Decidable c] (a b : Outcome α) (ha : a ≠ .panic) (hb : b ≠ .panic) :
+    (if c then a else b) ≠ .panic := by
+  split <;> assumption
+
+/-- one step of a never-panics proof over a `do` block of `Outcome` -/
+macro "np1" : tactic => `(tactic| first
+  | exact aux_pure_np _
+  | exact aux_c_next_np _
+  | exact aux_c_lexString_np _
+  | exact aux_c_lexNumber_np _
+  | exact aux_c_lexDelim_np _ _
+  | exact aux_c_lexRawString_np _
+  | exact aux_c_lexSkip_np _
+  | exact aux_c_parseUint_np _ _
+  | exact aux_c_parseInt_np _ _
+  | exact aux_c_b64Decode_np _
+  | exact aux_c_timeUnmarshal_np _
+  | (refine aux_bind_np' _ _ ?_ fun _ => ?_)
+  | (refine aux_ite_np _ _ _ ?_ ?_)
+  | split
+  | (simp; done))
+
+theorem aux_c_lexUint_np (bits : Nat) (l : Codec.Lex) : Codec.lexUint bits l ≠ .panic := by
+  unfold Codec.lexUint
+  repeat' np1
+
+theorem aux_c_lexInt_np (bits : Nat) (l : Codec.Lex) : Codec.lexInt bits l ≠ .panic := by
+  unfold Codec.lexInt
+  repeat' np1
+
+theorem aux_c_lexBytes_np (l : Codec.Lex) : Codec.lexBytes l ≠ .panic := by
+  unfold Codec.lexBytes
+  repeat' np1
+
+theorem aux_c_parseStrArray_np (fuel : Nat) : ∀ (l : Codec.Lex) (acc : List Bytes), Codec.parseStrArray fuel l acc ≠ .panic := by
+  induction fuel with
+  | zero => intro l acc; simp [Codec.parseStrArray]
+  | succ f ih =>
+    intro l acc
+    unfold Codec.parseStrArray
+    repeat' (first | exact ih _ _ | np1)
+
+theorem aux_c_parseHeaderObj_np (fuel : Nat) : ∀ (l : Codec.Lex) (m : Codec.Header), Codec.parseHeaderObj fuel l m ≠ .panic := by
+  induction fuel with
+  | zero => intro l m; simp [Codec.parseHeaderObj]
+  | succ f ih =>
+    intro l m
+    unfold Codec.parseHeaderObj
+    repeat' (first | exact ih _ _ | exact aux_c_parseStrArray_np _ _ _ | np1)
+
+theorem aux_c_parseMember_np (key : Bytes) (l : Codec.Lex) (r : Codec.Result) : Codec.parseMember key l r ≠ .panic := by
+  unfold Codec.parseMember
+  repeat' (first | exact aux_c_lexUint_np _ _ | exact aux_c_lexInt_np _ _ | exact aux_c_lexBytes_np _ | exact aux_c_parseHeaderObj_np _ _ _ | np1)
+
+theorem aux_c_parseMembers_np (fuel : Nat) : ∀ (l : Codec.Lex) (r : Codec.Result), Codec.parseMembers fuel l r ≠ .panic := by
+  induction fuel with
+  | zero => intro l r; simp [Codec.parseMembers]
+  | succ f ih =>
+    intro l r
+    unfold Codec.parseMembers
+    repeat' (first | exact ih _ _ | exact aux_c_parseMember_np _ _ _ | np1)
+
+/-- **The JSON line decoder of C07's model never panics** on any line: the jlexer token scanner
+(`fetchToken`, string/number/keyword scans, `SkipRecursive`), string unescaping, the generated
+member dispatch of `UnmarshalEasyJSON` for `Result` incl. the `headers` object and its string
+arrays, `strconv`, base64 and `Time.UnmarshalJSON` — all as modelled by C07 from the sources
+(the real easyjson/jlexer code itself stays a library, see tools/props/C16.json). -/
+theorem json_line_decoder_never_panics (line : Bytes) : Codec.decodeJSONLine line ≠ .panic := by
+  unfold Codec.decodeJSONLine
+  repeat' (first | exact aux_c_parseMembers_np _ _ _ | np1)
+
+/-! #### the CSV reader and decode loop: consumption and termination -/
+
+theorem aux_c_trimLeadF_len (f : Nat) : ∀ s : Bytes, (Codec.trimLeadF f s).length ≤ s.length := by
+  induction f with
+  | zero => intro s; simp [Codec.trimLeadF]
+  | succ f ih =>
+    intro s
+    unfold Codec.trimLeadF
+    split
+    · simp
+    · rename_i c r
+      split
+      · simp
+      · simp only []
+        split
+        · simp
+        · have := ih (r.drop (Codec.spaceRuneLen (c :: r) - 1))
+          have h2 : (r.drop (Codec.spaceRuneLen (c :: r) - 1)).length ≤ r.length := by simp
+          simp only [List.length_cons]; omega
+
+theorem aux_c_trimLead_len (s : Bytes) : (Codec.trimLead s).length ≤ s.length := aux_c_trimLeadF_len _ _
+
+theorem aux_c_scanUnquoted_len (s : Bytes) : (Codec.scanUnquoted s).2.length ≤ s.length := by
+  induction s with
+  | nil => simp [Codec.scanUnquoted]
+  | cons c r ih =>
+    unfold Codec.scanUnquoted
+    split
+    · simp
+    · simp only [List.length_cons]; omega
+
+theorem aux_c_scanQuoted_len (s : Bytes) : ∀ fld after, Codec.scanQuoted s = some (fld, after) → after.length < s.length := by
+  fun_induction Codec.scanQuoted s <;> intro fld after h
+  all_goals (try (simp only [Option.map_eq_some_iff] at h))
+  all_goals first
+    | (simp at h; done)
+    | (obtain ⟨p, hp, he⟩ := h
+       obtain ⟨pf, pa⟩ := p
+       simp at he
+       rename_i ih
+       have := ih pf pa hp
+       rw [← he.2]; simp only [List.length_cons]; omega)
+    | (simp at h; rw [← h.2]; simp)
+
+theorem aux_c_dropNL_len (s : Bytes) : (Codec.dropNL s).length ≤ s.length := by
+  induction s with
+  | nil => simp [Codec.dropNL]
+  | cons c r ih => unfold Codec.dropNL; split <;> simp <;> omega
+
+/-- a record delivered by the field loop leaves strictly less input (for non-empty input) -/
+theorem aux_c_parseFields_len (fuel : Nat) : ∀ (t : Bytes) (acc fs : List Bytes) (rest : Bytes),
+    Codec.parseFields fuel t acc = .record fs rest → rest.length ≤ t.length ∧ (t ≠ [] → rest.length < t.length) := by
+  induction fuel with
+  | zero => intro t acc fs rest h; simp [Codec.parseFields] at h
+  | succ f ih =>
+    intro t acc fs rest h
+    have htl := aux_c_trimLead_len t
+    have hne : t = [] → Codec.trimLead t = [] := by intro e; subst e; rfl
+    unfold Codec.parseFields at h
+    split at h
+    · rename_i r htr
+      rw [htr] at htl
+      have htne : t ≠ [] := by intro e; have := hne e; rw [htr] at this; cases this
+      split at h
+      · cases h
+      · rename_i fld after hq
+        have hal := aux_c_scanQuoted_len r fld after hq
+        split at h
+        · injection h with h1 h2; subst h2
+          simp only [List.length_cons] at htl
+          exact ⟨by simp, fun _ => by simp; omega⟩
+        · rename_i d r'
+          simp only [List.length_cons] at hal htl
+          split at h
+          · have := (ih r' _ fs rest h).1
+            exact ⟨by omega, fun _ => by omega⟩
+          · split at h
+            · injection h with h1 h2; subst h2
+              exact ⟨by omega, fun _ => by omega⟩
+            · cases h
+    · rename_i tl hnot
+      have hul := aux_c_scanUnquoted_len (Codec.trimLead t)
+      simp only [] at h
+      split at h
+      · cases h
+      · split at h
+        · injection h with h1 h2; subst h2
+          refine ⟨by simp, fun hn => ?_⟩
+          cases t with
+          | nil => contradiction
+          | cons a b => simp
+        · rename_i d r' hsu
+          rw [hsu] at hul
+          simp only [List.length_cons] at hul
+          split at h
+          · have := (ih r' _ fs rest h).1
+            exact ⟨by omega, fun _ => by omega⟩
+          · injection h with h1 h2; subst h2
+            exact ⟨by omega, fun _ => by omega⟩
+
+/-- the field loop's result does not depend on its fuel once it exceeds the input length -/
+theorem aux_c_parseFields_fuel (n : Nat) : ∀ (t : Bytes) (acc : List Bytes) (f1 f2 : Nat), t.length ≤ n → t.length < f1 → t.length < f2 →
+    Codec.parseFields f1 t acc = Codec.parseFields f2 t acc := by
+  induction n with
+  | zero =>
+    intro t acc f1 f2 hn h1 h2
+    have : t = [] := List.length_eq_zero_iff.mp (by omega)
+    subst this
+    cases f1 with
+    | zero => omega
+    | succ a => cases f2 with
+      | zero => omega
+      | succ b => simp [Codec.parseFields, Codec.trimLead, Codec.trimLeadF, Codec.scanUnquoted]
+  | succ n ih =>
+    intro t acc f1 f2 hn h1 h2
+    cases f1 with
+    | zero => omega
+    | succ a =>
+      cases f2 with
+      | zero => omega
+      | succ b =>
+        have htl := aux_c_trimLead_len t
+        unfold Codec.parseFields
+        split
+        · rename_i r htr
+          rw [htr] at htl
+          simp only [List.length_cons] at htl
+          split
+          · rfl
+          · rename_i fld after hq
+            have hal := aux_c_scanQuoted_len r fld after hq
+            split
+            · rfl
+            · rename_i d r'
+              simp only [List.length_cons] at hal
+              split
+              · exact ih r' _ a b (by omega) (by omega) (by omega)
+              · rfl
+        · have hul := aux_c_scanUnquoted_len (Codec.trimLead t)
+          simp only []
+          split
+          · rfl
+          · split
+            · rfl
+            · rename_i d r' hsu
+              rw [hsu] at hul
+              simp only [List.length_cons] at hul
+              split
+              · exact ih r' _ a b (by omega) (by omega) (by omega)
+              · rfl
+
+/-- **A record returned by the CSV reader model consumed input**: `Read` never returns a record
+without advancing (so a decode loop cannot spin). -/
+theorem csv_reader_consumes (s : Bytes) (fs : List Bytes) (rest : Bytes) (h : Codec.readRecord s = .record fs rest) :
+    rest.length < s.length := by
+  unfold Codec.readRecord at h
+  have hd := aux_c_dropNL_len s
+  split at h
+  · cases h
+  · rename_i t hne
+    have := (aux_c_parseFields_len _ _ _ _ _ h).2 (by intro e; exact hne e)
+    omega
+
+/-- the decode loop's result does not depend on the fuel once it exceeds the input length:
+the bound `len + 1` the model uses is never what ends decoding -/
+theorem aux_c_decodeCSVF_fuel (n : Nat) : ∀ (s : Bytes) (f1 f2 : Nat), s.length ≤ n → s.length < f1 → s.length < f2 →
+    Codec.decodeCSVF f1 s = Codec.decodeCSVF f2 s := by
+  induction n with
+  | zero =>
+    intro s f1 f2 hn h1 h2
+    have : s = [] := List.length_eq_zero_iff.mp (by omega)
+    subst this
+    cases f1 with
+    | zero => omega
+    | succ a => cases f2 with
+      | zero => omega
+      | succ b => simp [Codec.decodeCSVF, Codec.readRecord, Codec.dropNL]
+  | succ n ih =>
+    intro s f1 f2 hn h1 h2
+    cases f1 with
+    | zero => omega
+    | succ a =>
+      cases f2 with
+      | zero => omega
+      | succ b =>
+        unfold Codec.decodeCSVF
+        cases hr : Codec.readRecord s with
+        | eof => rfl
+        | err => rfl
+        | record fs rest =>
+          have hlt := csv_reader_consumes s fs rest hr
+          simp only []
+          split
+          · rfl
+          · split
+            · rw [ih rest a b (by omega) (by omega) (by omega)]
+            · rfl
+            · rfl
+
+/-- **The CSV decoder model is total, never panics and terminates for every byte string**:
+(1) converting a record never panics; (2) every record the reader returns consumed input;
+(3) the result of decoding a whole stream is the same for every fuel above the input length —
+the model's fuel bound is never what ends decoding, the loop ends by end of input or an error;
+(4) likewise for the field loop inside one `Read`. (`encoding/csv` itself remains a library: this
+is C07's model of it.) -/
+theorem csv_decoder_never_panics (s : Bytes) :
+    (∀ fields, Codec.resultOfRecord fields ≠ .panic) ∧
+    (∀ t fs rest, Codec.readRecord t = .record fs rest → rest.length < t.length) ∧
+    (∀ fuel, (Codec.normCRLF s).length < fuel → Codec.decodeCSVF fuel (Codec.normCRLF s) = Codec.decodeCSV s) ∧
+    (∀ t acc fuel, t.length < fuel → Codec.parseFields fuel t acc = Codec.parseFields (t.length + 1) t acc) := by
+  refine ⟨csv_record_conversion_never_panics, csv_reader_consumes, ?_, ?_⟩
+  · intro fuel hf
+    unfold Codec.decodeCSV
+    exact aux_c_decodeCSVF_fuel _ _ _ _ (Nat.le_refl _) hf (by omega)
+  · intro t acc fuel hf
+    exact aux_c_parseFields_fuel _ _ _ _ _ (Nat.le_refl _) hf (by omega)
+
+/-! #### the JSON decode loop and lexer: consumption and termination -/
+
+theorem aux_c_splitLine_len (s : Bytes) : ∀ line rest, Codec.splitLine s = some (line, rest) → rest.length < s.length := by
+  induction s with
+  | nil => intro l r h; simp [Codec.splitLine] at h
+  | cons c r ih =>
+    intro line rest h
+    unfold Codec.splitLine at h
+    split at h
+    · simp at h; rw [← h.2]; simp
+    · simp only [Option.map_eq_some_iff] at h
+      obtain ⟨p, hp, he⟩ := h
+      obtain ⟨a, b⟩ := p
+      simp at he
+      have := ih a b hp
+      rw [← he.2]; simp only [List.length_cons]; omega
+
+theorem aux_c_decodeJSONF_fuel (n : Nat) : ∀ (s : Bytes) (f1 f2 : Nat), s.length ≤ n → s.length < f1 → s.length < f2 →
+    Codec.decodeJSONF f1 s = Codec.decodeJSONF f2 s := by
+  induction n with
+  | zero =>
+    intro s f1 f2 hn h1 h2
+    have : s = [] := List.length_eq_zero_iff.mp (by omega)
+    subst this
+    cases f1 with
+    | zero => omega
+    | succ a => cases f2 with
+      | zero => omega
+      | succ b => simp [Codec.decodeJSONF]
+  | succ n ih =>
+    intro s f1 f2 hn h1 h2
+    cases f1 with
+    | zero => omega
+    | succ a =>
+      cases f2 with
+      | zero => omega
+      | succ b =>
+        unfold Codec.decodeJSONF
+        split
+        · rfl
+        · cases hs : Codec.splitLine s with
+          | none => rfl
+          | some p =>
+            obtain ⟨line, rest⟩ := p
+            have hlt := aux_c_splitLine_len s line rest hs
+            simp only []
+            split
+            · rw [ih rest a b (by omega) (by omega) (by omega)]
+            · rfl
+            · rfl
+
+theorem aux_c_fetchStringP_len (s : Bytes) : ∀ odd raw rest, Codec.fetchStringP odd s = some (raw, rest) → rest.length < s.length := by
+  induction s with
+  | nil => intro o raw rest h; simp [Codec.fetchStringP] at h
+  | cons c r ih =>
+    intro odd raw rest h
+    unfold Codec.fetchStringP at h
+    split at h
+    · simp at h; rw [← h.2]; simp
+    · simp only [Option.map_eq_some_iff] at h
+      obtain ⟨p, hp, he⟩ := h
+      obtain ⟨a, b⟩ := p
+      simp at he
+      have := ih _ a b hp
+      rw [← he.2]; simp only [List.length_cons]; omega
+
+theorem aux_c_fetchNumberP_len (s : Bytes) : ∀ a b c raw rest, Codec.fetchNumberP a b c s = some (raw, rest) → rest.length ≤ s.length := by
+  induction s with
+  | nil => intro a b c raw rest h; simp [Codec.fetchNumberP] at h; rw [← h.2]; simp
+  | cons x r ih =>
+    intro a b c raw rest h
+    unfold Codec.fetchNumberP at h
+    repeat' (first
+      | (simp only [Option.map_eq_some_iff] at h
+         obtain ⟨p, hp, he⟩ := h
+         obtain ⟨u, v⟩ := p
+         simp at he
+         have := ih _ _ _ u v hp
+         rw [← he.2]; simp only [List.length_cons]; omega)
+      | (simp at h; rw [← h.2]; simp; done)
+      | (simp at h; done)
+      | split at h)
+
+theorem aux_c_fetchKeyword_len (kw s : Bytes) : ∀ rest, Codec.fetchKeyword kw s = some rest → rest.length ≤ s.length := by
+  intro rest h
+  unfold Codec.fetchKeyword at h
+  split at h
+  · split at h
+    · simp at h; subst h; simp
+    · rename_i c r hd
+      split at h
+      · simp at h; rw [← h, ← hd]; simp
+      · simp at h
+  · simp at h
+
+/-- **Every token the lexer model returns consumed at least one byte.** -/
+theorem json_lexer_consumes (s : Bytes) (ws : Nat) (fe : Bool) : ∀ t l', Codec.fetchToken s ws fe = .ok (t, l') →
+    l'.rest.length < s.length := by
+  fun_induction Codec.fetchToken s ws fe <;> intro t l' h
+  all_goals (try simp only [Codec.fetchString] at *)
+  all_goals first
+    | (simp at h; done)
+    | (rename_i ih; have := ih t l' h; simp only [List.length_cons]; omega)
+    | (simp at h; rw [← h.2]; simp; done)
+    | (simp at h; rw [← h.2]; simp
+       first
+         | (have := aux_c_fetchStringP_len _ _ _ _ (by assumption); omega)
+         | (have := aux_c_fetchNumberP_len _ _ _ _ _ _ (by assumption); omega)
+         | (have := aux_c_fetchKeyword_len _ _ _ (by assumption); omega))
+
+@[simp] theorem aux_ok_bind {α β} (a : α) (f : α → Outcome β) : (Outcome.ok a >>= f) = f a := rfl
+@[simp] theorem aux_err_bind {α β} (e : Nat) (f : α → Outcome β) : (Outcome.error e >>= f) = .error e := rfl
+@[simp] theorem aux_panic_bind {α β} (f : α → Outcome β) : (Outcome.panic >>= f) = .panic := rfl
+@[simp] theorem aux_pure_ok {α} (a : α) : (pure a : Outcome α) = .ok a := rfl
+
+theorem aux_bind_ok {α β} (x : Outcome α) (f : α → Outcome β) (b : β) (h : (x >>= f) = .ok b) :
+    ∃ a, x = .ok a ∧ f a = .ok b := by
+  cases x with
+  | ok a => exact ⟨a, rfl, h⟩
+  | error e => simp at h
+  | panic => simp at h
+
+theorem aux_c_next_len (l : Codec.Lex) (t : Codec.Tok) (l' : Codec.Lex) (h : l.next = .ok (t, l')) :
+    l'.rest.length < l.rest.length := json_lexer_consumes _ _ _ t l' h
+
+theorem aux_c_lexString_len (l : Codec.Lex) (s : Bytes) (l' : Codec.Lex) (h : Codec.lexString l = .ok (s, l')) :
+    l'.rest.length < l.rest.length := by
+  unfold Codec.lexString at h
+  split at h
+  · rename_i raw l1 hn
+    split at h
+    · simp at h; rw [← h.2]; exact aux_c_next_len l _ _ hn
+    · simp at h
+  all_goals simp at h
+
+theorem aux_c_lexNumber_len (l : Codec.Lex) (s : Bytes) (l' : Codec.Lex) (h : Codec.lexNumber l = .ok (s, l')) :
+    l'.rest.length < l.rest.length := by
+  unfold Codec.lexNumber at h
+  split at h
+  · rename_i raw l1 hn
+    simp at h; rw [← h.2]; exact aux_c_next_len l _ _ hn
+  all_goals simp at h
+
+theorem aux_c_lexDelim_len (c : Nat) (l l' : Codec.Lex) (h : Codec.lexDelim c l = .ok l') :
+    l'.rest.length < l.rest.length := by
+  unfold Codec.lexDelim at h
+  split at h
+  · rename_i d l1 hn
+    split at h
+    · simp at h; rw [← h]; exact aux_c_next_len l _ _ hn
+    · simp at h
+  all_goals simp at h
+
+theorem aux_c_lexRawString_len (l : Codec.Lex) (s : Bytes) (l' : Codec.Lex) (h : Codec.lexRawString l = .ok (s, l')) :
+    l'.rest.length < l.rest.length := by
+  unfold Codec.lexRawString at h
+  split at h
+  · rename_i raw l1 hn
+    simp at h; rw [← h.2]; exact aux_c_next_len l _ _ hn
+  all_goals simp at h
+
+theorem aux_c_skipNested_len (a b : Nat) (s : Bytes) : ∀ lvl q e r, Codec.skipNested a b lvl q e s = some r → r.length < s.length := by
+  induction s with
+  | nil => intro lvl q e r h; simp [Codec.skipNested] at h
+  | cons c t ih =>
+    intro lvl q e r h
+    unfold Codec.skipNested at h
+    repeat' (first
+      | (have := ih _ _ _ _ h; simp only [List.length_cons]; omega)
+      | (simp at h; rw [← h]; simp; done)
+      | split at h)
+
+theorem aux_c_lexSkip_len (l l' : Codec.Lex) (h : Codec.lexSkip l = .ok l') : l'.rest.length < l.rest.length := by
+  unfold Codec.lexSkip at h
+  split at h
+  · rename_i l1 hn
+    have h1 := aux_c_next_len l _ _ hn
+    split at h
+    · rename_i r hs
+      have := aux_c_skipNested_len _ _ _ _ _ _ _ hs
+      simp at h; rw [← h]; simp; omega
+    · simp at h
+  · rename_i l1 hn
+    have h1 := aux_c_next_len l _ _ hn
+    split at h
+    · rename_i r hs
+      have := aux_c_skipNested_len _ _ _ _ _ _ _ hs
+      simp at h; rw [← h]; simp; omega
+    · simp at h
+  · rename_i tk l1 _ _ hn
+    simp at h; rw [← h]; exact aux_c_next_len l _ _ hn
+  all_goals simp at h
+
+theorem aux_c_lexUint_len (bits : Nat) (l : Codec.Lex) (n : Nat) (l' : Codec.Lex) (h : Codec.lexUint bits l = .ok (n, l')) :
+    l'.rest.length < l.rest.length := by
+  unfold Codec.lexUint at h
+  obtain ⟨⟨raw, l1⟩, h1, h2⟩ := aux_bind_ok _ _ _ h
+  obtain ⟨m, _, h4⟩ := aux_bind_ok _ _ _ h2
+  simp at h4; rw [← h4.2]; exact aux_c_lexNumber_len l _ _ h1
+
+theorem aux_c_lexInt_len (bits : Nat) (l : Codec.Lex) (n : Int) (l' : Codec.Lex) (h : Codec.lexInt bits l = .ok (n, l')) :
+    l'.rest.length < l.rest.length := by
+  unfold Codec.lexInt at h
+  obtain ⟨⟨raw, l1⟩, h1, h2⟩ := aux_bind_ok _ _ _ h
+  obtain ⟨m, _, h4⟩ := aux_bind_ok _ _ _ h2
+  simp at h4; rw [← h4.2]; exact aux_c_lexNumber_len l _ _ h1
+
+theorem aux_c_lexBytes_len (l : Codec.Lex) (b : Bytes) (l' : Codec.Lex) (h : Codec.lexBytes l = .ok (b, l')) :
+    l'.rest.length < l.rest.length := by
+  unfold Codec.lexBytes at h
+  obtain ⟨⟨raw, l1⟩, h1, h2⟩ := aux_bind_ok _ _ _ h
+  obtain ⟨m, _, h4⟩ := aux_bind_ok _ _ _ h2
+  simp at h4; rw [← h4.2]; exact aux_c_lexString_len l _ _ h1
+
+theorem aux_c_parseStrArray_len (fuel : Nat) : ∀ (l : Codec.Lex) (acc vs : List Bytes) (l' : Codec.Lex),
+    Codec.parseStrArray fuel l acc = .ok (vs, l') → l'.rest.length < l.rest.length := by
+  induction fuel with
+  | zero => intro l acc vs l' h; simp [Codec.parseStrArray] at h
+  | succ f ih =>
+    intro l acc vs l' h
+    unfold Codec.parseStrArray at h
+    obtain ⟨⟨t, l1⟩, h1, h2⟩ := aux_bind_ok _ _ _ h
+    simp only [] at h2
+    split at h2
+    · simp at h2; rw [← h2.2]; exact aux_c_next_len l _ _ h1
+    · obtain ⟨⟨s, l2⟩, h3, h4⟩ := aux_bind_ok _ _ _ h2
+      have := aux_c_lexString_len l _ _ h3
+      have := ih _ _ _ _ h4
+      simp [Codec.Lex.wantComma] at this; omega
+
+theorem aux_c_parseHeaderObj_len (fuel : Nat) : ∀ (l : Codec.Lex) (m m' : Codec.Header) (l' : Codec.Lex),
+    Codec.parseHeaderObj fuel l m = .ok (m', l') → l'.rest.length < l.rest.length := by
+  induction fuel with
+  | zero => intro l m m' l' h; simp [Codec.parseHeaderObj] at h
+  | succ f ih =>
+    intro l m m' l' h
+    unfold Codec.parseHeaderObj at h
+    obtain ⟨⟨t, l1⟩, h1, h2⟩ := aux_bind_ok _ _ _ h
+    simp only [] at h2
+    split at h2
+    · simp at h2; rw [← h2.2]; exact aux_c_next_len l _ _ h1
+    · obtain ⟨⟨key, lk⟩, h3, h4⟩ := aux_bind_ok _ _ _ h2
+      have hk := aux_c_lexString_len l _ _ h3
+      simp only [] at h4
+      obtain ⟨⟨t2, l3⟩, h5, h6⟩ := aux_bind_ok _ _ _ h4
+      have h3l := aux_c_next_len _ _ _ h5
+      simp only [Codec.Lex.wantColon] at h3l
+      simp only [] at h6
+      split at h6
+      · have := ih _ _ _ _ h6
+        simp [Codec.Lex.wantComma] at this; omega
+      · obtain ⟨l4, h7, h8⟩ := aux_bind_ok _ _ _ h6
+        have h4l := aux_c_lexDelim_len _ _ _ h7
+        simp only [Codec.Lex.wantColon] at h4l
+        obtain ⟨⟨vs, l5⟩, h9, h10⟩ := aux_bind_ok _ _ _ h8
+        have h5l := aux_c_parseStrArray_len _ _ _ _ _ h9
+        have := ih _ _ _ _ h10
+        simp [Codec.Lex.wantComma] at this; omega
+
+theorem aux_ite_ok {α} (c : Prop) [Decidable c] (a b : Outcome α) (x : α) (h : (if c then a else b) = .ok x) :
+    a = .ok x ∨ b = .ok x := by
+  split at h
+  · exact Or.inl h
+  · exact Or.inr h
+
+theorem aux_c_parseMember_len (key : Bytes) (l : Codec.Lex) (r r' : Codec.Result) (l' : Codec.Lex)
+    (h : Codec.parseMember key l r = .ok (r', l')) : l'.rest.length < l.rest.length := by
+  unfold Codec.parseMember at h
+  repeat' (first
+    | (obtain ⟨⟨x, l1⟩, h1, h2⟩ := aux_bind_ok _ _ _ h
+       first
+         | (simp at h2; rw [← h2.2]
+            first
+              | exact aux_c_lexString_len l _ _ h1
+              | exact aux_c_lexUint_len _ l _ _ h1
+              | exact aux_c_lexInt_len _ l _ _ h1
+              | exact aux_c_lexBytes_len l _ _ h1)
+         | (obtain ⟨t, _, h4⟩ := aux_bind_ok _ _ _ h2
+            simp at h4; rw [← h4.2]; exact aux_c_lexRawString_len l _ _ h1))
+    | (obtain ⟨l1, h1, h2⟩ := aux_bind_ok _ _ _ h
+       first
+         | (simp at h2; rw [← h2.2]; exact aux_c_lexSkip_len l _ h1)
+         | (obtain ⟨⟨hh, l2⟩, h3, h4⟩ := aux_bind_ok _ _ _ h2
+            have a1 := aux_c_lexDelim_len _ _ _ h1
+            have a2 := aux_c_parseHeaderObj_len _ _ _ _ _ h3
+            simp at h4; rw [← h4.2]; omega))
+    | (rcases aux_ite_ok _ _ _ _ h with h | h))
+
+theorem aux_c_parseStrArray_fuel (n : Nat) : ∀ (l : Codec.Lex) (acc : List Bytes) (f1 f2 : Nat),
+    l.rest.length ≤ n → l.rest.length < f1 → l.rest.length < f2 →
+    Codec.parseStrArray f1 l acc = Codec.parseStrArray f2 l acc := by
+  induction n with
+  | zero =>
+    intro l acc f1 f2 hn h1 h2
+    cases f1 with
+    | zero => omega
+    | succ a => cases f2 with
+      | zero => omega
+      | succ b =>
+        have : l.rest = [] := List.length_eq_zero_iff.mp (by omega)
+        simp [Codec.parseStrArray, Codec.Lex.next, this, Codec.fetchToken]
+  | succ n ih =>
+    intro l acc f1 f2 hn h1 h2
+    cases f1 with
+    | zero => omega
+    | succ a =>
+      cases f2 with
+      | zero => omega
+      | succ b =>
+        unfold Codec.parseStrArray
+        cases hx : l.next with
+        | error e => rfl
+        | panic => rfl
+        | ok p =>
+          obtain ⟨t, l1⟩ := p
+          simp only [aux_ok_bind]
+          split
+          · rfl
+          · cases hs : Codec.lexString l with
+            | error e => rfl
+            | panic => rfl
+            | ok q =>
+              obtain ⟨s, l2⟩ := q
+              have := aux_c_lexString_len l _ _ hs
+              simp only [aux_ok_bind]
+              exact ih _ _ a b (by simp [Codec.Lex.wantComma]; omega) (by simp [Codec.Lex.wantComma]; omega)
+                (by simp [Codec.Lex.wantComma]; omega)
+
+theorem aux_c_parseHeaderObj_fuel (n : Nat) : ∀ (l : Codec.Lex) (m : Codec.Header) (f1 f2 : Nat),
+    l.rest.length ≤ n → l.rest.length < f1 → l.rest.length < f2 →
+    Codec.parseHeaderObj f1 l m = Codec.parseHeaderObj f2 l m := by
+  induction n with
+  | zero =>
+    intro l m f1 f2 hn h1 h2
+    cases f1 with
+    | zero => omega
+    | succ a => cases f2 with
+      | zero => omega
+      | succ b =>
+        have : l.rest = [] := List.length_eq_zero_iff.mp (by omega)
+        simp [Codec.parseHeaderObj, Codec.Lex.next, this, Codec.fetchToken]
+  | succ n ih =>
+    intro l m f1 f2 hn h1 h2
+    cases f1 with
+    | zero => omega
+    | succ a =>
+      cases f2 with
+      | zero => omega
+      | succ b =>
+        unfold Codec.parseHeaderObj
+        cases hx : l.next with
+        | error e => rfl
+        | panic => rfl
+        | ok p =>
+          obtain ⟨t, l1⟩ := p
+          simp only [aux_ok_bind]
+          split
+          · rfl
+          · cases hs : Codec.lexString l with
+            | error e => rfl
+            | panic => rfl
+            | ok q =>
+              obtain ⟨key, lk⟩ := q
+              have hk := aux_c_lexString_len l _ _ hs
+              simp only [aux_ok_bind]
+              cases h2n : lk.wantColon.next with
+              | error e => rfl
+              | panic => rfl
+              | ok q2 =>
+                obtain ⟨t2, l3⟩ := q2
+                have h3l := aux_c_next_len _ _ _ h2n
+                simp only [Codec.Lex.wantColon] at h3l
+                simp only [aux_ok_bind]
+                split
+                · exact ih _ _ a b (by simp [Codec.Lex.wantComma]; omega) (by simp [Codec.Lex.wantComma]; omega)
+                    (by simp [Codec.Lex.wantComma]; omega)
+                · cases hd : Codec.lexDelim 91 lk.wantColon with
+                  | error e => rfl
+                  | panic => rfl
+                  | ok l4 =>
+                    have h4l := aux_c_lexDelim_len _ _ _ hd
+                    simp only [Codec.Lex.wantColon] at h4l
+                    simp only [aux_ok_bind]
+                    cases hsa : Codec.parseStrArray (l4.rest.length + 1) l4 [] with
+                    | error e => rfl
+                    | panic => rfl
+                    | ok q5 =>
+                      obtain ⟨vs, l5⟩ := q5
+                      have h5l := aux_c_parseStrArray_len _ _ _ _ _ hsa
+                      simp only [aux_ok_bind]
+                      exact ih _ _ a b (by simp [Codec.Lex.wantComma]; omega) (by simp [Codec.Lex.wantComma]; omega)
+                        (by simp [Codec.Lex.wantComma]; omega)
+
+theorem aux_c_parseMembers_fuel (n : Nat) : ∀ (l : Codec.Lex) (r : Codec.Result) (f1 f2 : Nat),
+    l.rest.length ≤ n → l.rest.length < f1 → l.rest.length < f2 →
+    Codec.parseMembers f1 l r = Codec.parseMembers f2 l r := by
+  induction n with
+  | zero =>
+    intro l r f1 f2 hn h1 h2
+    cases f1 with
+    | zero => omega
+    | succ a => cases f2 with
+      | zero => omega
+      | succ b =>
+        have : l.rest = [] := List.length_eq_zero_iff.mp (by omega)
+        simp [Codec.parseMembers, Codec.Lex.next, this, Codec.fetchToken]
+  | succ n ih =>
+    intro l r f1 f2 hn h1 h2
+    cases f1 with
+    | zero => omega
+    | succ a =>
+      cases f2 with
+      | zero => omega
+      | succ b =>
+        unfold Codec.parseMembers
+        cases hx : l.next with
+        | error e => rfl
+        | panic => rfl
+        | ok p =>
+          obtain ⟨t, l1⟩ := p
+          simp only [aux_ok_bind]
+          split
+          · rfl
+          · cases hs : Codec.lexString l with
+            | error e => rfl
+            | panic => rfl
+            | ok q =>
+              obtain ⟨key, lk⟩ := q
+              have hk := aux_c_lexString_len l _ _ hs
+              simp only [aux_ok_bind]
+              cases h2n : lk.wantColon.next with
+              | error e => rfl
+              | panic => rfl
+              | ok q2 =>
+                obtain ⟨t2, l3⟩ := q2
+                have h3l := aux_c_next_len _ _ _ h2n
+                simp only [Codec.Lex.wantColon] at h3l
+                simp only [aux_ok_bind]
+                split
+                · exact ih _ _ a b (by simp [Codec.Lex.wantComma]; omega) (by simp [Codec.Lex.wantComma]; omega)
+                    (by simp [Codec.Lex.wantComma]; omega)
+                · cases hm : Codec.parseMember key lk.wantColon r with
+                  | error e => rfl
+                  | panic => rfl
+                  | ok q4 =>
+                    obtain ⟨r', l4⟩ := q4
+                    have h4l := aux_c_parseMember_len _ _ _ _ _ hm
+                    simp only [Codec.Lex.wantColon] at h4l
+                    simp only [aux_ok_bind]
+                    exact ih _ _ a b (by simp [Codec.Lex.wantComma]; omega) (by simp [Codec.Lex.wantComma]; omega)
+                      (by simp [Codec.Lex.wantComma]; omega)
+
+theorem aux_c_unescapeF_fuel (n : Nat) : ∀ (s : Bytes) (f1 f2 : Nat), s.length ≤ n → s.length < f1 → s.length < f2 →
+    Codec.unescapeF f1 s = Codec.unescapeF f2 s := by
+  induction n with
+  | zero =>
+    intro s f1 f2 hn h1 h2
+    have : s = [] := List.length_eq_zero_iff.mp (by omega)
+    subst this
+    cases f1 with
+    | zero => omega
+    | succ a => cases f2 with
+      | zero => omega
+      | succ b => simp [Codec.unescapeF]
+  | succ n ih =>
+    intro s f1 f2 hn h1 h2
+    cases f1 with
+    | zero => omega
+    | succ a =>
+      cases f2 with
+      | zero => omega
+      | succ b =>
+        cases s with
+        | nil => simp [Codec.unescapeF]
+        | cons c r =>
+          simp only [List.length_cons] at hn h1 h2
+          unfold Codec.unescapeF
+          split
+          · split
+            · rfl
+            · rename_i rune k _
+              have hd : (r.drop (k - 1)).length ≤ r.length := by simp
+              rw [ih (r.drop (k - 1)) a b (by omega) (by omega) (by omega)]
+          · rw [ih r a b (by omega) (by omega) (by omega)]
+
+/-- **The JSON decoder model is total, never panics and terminates for every byte string**:
+(1) decoding a line never panics; (2) every line taken from the stream consumes input and every
+token the lexer returns consumes input; (3) the result of decoding a whole stream is the same
+for every fuel above the input length — the model's fuel is never what ends decoding; (4) the
+same for the member loop, the `headers` object loop, the string-array loop and string unescaping
+inside a line.
+(jlexer/easyjson themselves remain a library: this is C07's model of the token scanner and of
+the generated `UnmarshalEasyJSON`.) -/
+theorem json_decoder_never_panics (s : Bytes) :
+    (∀ line, Codec.decodeJSONLine line ≠ .panic) ∧
+    (∀ t line rest, Codec.splitLine t = some (line, rest) → rest.length < t.length) ∧
+    (∀ (l : Codec.Lex) tk l', l.next = .ok (tk, l') → l'.rest.length < l.rest.length) ∧
+    (∀ fuel, s.length < fuel → Codec.decodeJSONF fuel s = Codec.decodeJSON s) ∧
+    (∀ (l : Codec.Lex) r fuel, l.rest.length < fuel → Codec.parseMembers fuel l r = Codec.parseMembers (l.rest.length + 1) l r) ∧
+    (∀ (l : Codec.Lex) m fuel, l.rest.length < fuel → Codec.parseHeaderObj fuel l m = Codec.parseHeaderObj (l.rest.length + 1) l m) ∧
+    (∀ (l : Codec.Lex) acc fuel, l.rest.length < fuel → Codec.parseStrArray fuel l acc = Codec.parseStrArray (l.rest.length + 1) l acc) ∧
+    (∀ raw fuel, raw.length < fuel → Codec.unescapeF fuel raw = Codec.unescape raw) := by
+  refine ⟨json_line_decoder_never_panics, aux_c_splitLine_len, aux_c_next_len, ?_, ?_, ?_, ?_, ?_⟩
+  · intro fuel hf
+    unfold Codec.decodeJSON
+    exact aux_c_decodeJSONF_fuel _ _ _ _ (Nat.le_refl _) hf (by omega)
+  · intro l r fuel hf
+    exact aux_c_parseMembers_fuel _ _ _ _ _ (Nat.le_refl _) hf (by omega)
+  · intro l m fuel hf
+    exact aux_c_parseHeaderObj_fuel _ _ _ _ _ (Nat.le_refl _) hf (by omega)
+  · intro l acc fuel hf
+    exact aux_c_parseStrArray_fuel _ _ _ _ _ (Nat.le_refl _) hf (by omega)
+  · intro raw fuel hf
+    unfold Codec.unescape
+    exact aux_c_unescapeF_fuel _ _ _ _ (Nat.le_refl _) hf (by omega)
+
+end others
 
 end Vegeta.Props.C16
